@@ -238,12 +238,20 @@ def run_property(prop: str, tier: str, specs, *, level="model_checking", crash_i
         all_failed = bool(hs) and len(crashed) == len(hs) and all(h["codes"][-1] == 3 for h in hs)
         props = {prop, *also}
         nP = 0
+        # histories resumed from a checkpoint that checkpoint_on_training wrote INSIDE the critical section
+        mid_resumed = {}
+        for hi, evs_ in enumerate(packed):
+            for li, e_ in enumerate(evs_):
+                if e_["ev"] == "resume" and e_.get("from_mid_ckpt"):
+                    mid_resumed.setdefault(hi, li)
         for r in records:
             if r["k"] == "M":
                 v.mismatch(f"history {r['h']} event {r['l']}: {r['c']}")
             elif r["p"] in props:
                 nP += 1
                 sig = sig_of(r) if sig_of else r["c"].split(":")[0]
+                if r["h"] in mid_resumed and r["l"] >= mid_resumed[r["h"]] and r["p"] in ("C01", "C02", "C05", "C12"):
+                    sig = "resumed_from_checkpoint_on_training_inside_iteration"
                 h = hs[r["h"]]
                 v.violation(sig, f"{r['p']} clause '{r['c']}' fails at event {r['l']} "
                             f"({r['ev']['ev'] if r['ev'] else '?'}) of history {r['h']} "
